@@ -2,6 +2,8 @@ import S2T.Model.Observe
 import S2T.Gen.Effects
 import S2T.Props.C06_History
 import S2T.Props.C06_Input
+import S2T.Props.C06_Ambient
+import S2T.Props.C06_Observers
 /-!
 # C06 — determinism, purity, idempotent observation
 
